@@ -31,8 +31,9 @@ RULE = ('case = header (Machine or HierarchicalMachine, auto_transitions, ignore
         'appends a raising call (unknown trigger removed, bad ordered arguments, unregistered State object, duplicate nested '
         'state). Non-trivial: both scripts succeed, are syntactically different, and the history executes a transition.')
 ASSUMPTIONS = ['callbacks neither raise nor call back into the machine (C04/C05)',
-               'hierarchical laws (nested dict vs joined names, embedded machine with remap) are checked by '
-               'implementation-vs-implementation comparison only (extra_checks), not by the Coq model',
+               'hierarchical construction (Model/HBuild.v, dispatch kind 17): auto_transitions off, names/dicts/embedded '
+               'machines (no NestedState objects, no Enum states, no parallel shorthand), initial of an embedded machine '
+               'a top-level state; event transitions are compared per source (the library groups them by source)',
                'State objects passed as references are the registered objects (identity is not modelled)',
                'embedded-machine check: event names include to_-prefixed names that are no automatic transitions, the '
                'embedded machine has auto_transitions on or off and one or two levels (also both: D33, fixed); user '
@@ -41,13 +42,19 @@ ASSUMPTIONS = ['callbacks neither raise nor call back into the machine (C04/C05)
                'no known finding is attributed by this check: D27/D28 (Enum/State forms in add_ordered_transitions '
                'states and in Machine.remove_transition filters) are fixed in /repo and proved as laws']
 THEOREMS = ['C13_callback_repr', 'C13_callback_repr_state', 'C13_callback_repr_machine', 'C13_state_repr',
-            'C13_state_name_obj', 'C13_state_dict_obj', 'C13_ignore_fallback', 'C13_ref_repr', 'C13_initial_repr',
-            'C13_ctor_later', 'C13_ctor_unfold', 'C13_script_compose', 'C13_batch_states', 'C13_batch_transitions',
-            'C13_list_dict', 'C13_list_dict_forms', 'C13_wildcard', 'C13_many_split', 'C13_reflexive',
-            'C13_wildcard_reflexive', 'C13_ordered_ring', 'C13_ordered_ring_example', 'C13_remove_inverse',
-            'C13_behaviour', 'C13_behaviour_history', 'C13_equal_scripts_behave_equally',
-            'C13_ordered_repr', 'C13_ordered_ts_repr', 'C13_ordered_default_states', 'C13_ordered_enum_example',
-            'C13_remove_filter_repr', 'C13_remove_match_repr', 'C13_remove_enum_example']
+            'C13_state_name_obj', 'C13_state_dict_obj', 'C13_ignore_fallback', 'C13_ref_repr',
+            'C13_initial_repr', 'C13_ctor_later', 'C13_ctor_unfold', 'C13_script_compose', 'C13_batch_states',
+            'C13_batch_transitions', 'C13_list_dict', 'C13_list_dict_forms', 'C13_wildcard', 'C13_many_split',
+            'C13_reflexive', 'C13_wildcard_reflexive', 'C13_ordered_ring', 'C13_ordered_ring_example',
+            'C13_remove_inverse', 'C13_behaviour', 'C13_behaviour_history', 'C13_equal_scripts_behave_equally',
+            'C13_ordered_repr', 'C13_ordered_ts_repr', 'C13_ordered_default_states',
+            'C13_ordered_enum_example', 'C13_remove_filter_repr', 'C13_remove_match_repr',
+            'C13_remove_enum_example', 'C13_h_children_states', 'C13_h_children_states_script',
+            'C13_h_nested_dict_joined_names', 'C13_h_nested_dict_joined_names_script', 'C13_h_names_example',
+            'C13_h_embedded_machine', 'C13_h_embedded_machine_script', 'C13_h_dict_round_trip',
+            'C13_h_embedded_remap', 'C13_h_embedded_remap_script', 'C13_h_never_mentioned',
+            'C13_h_remove_never_added', 'C13_h_remove_never_added_scratch', 'C13_h_unique_event_names',
+            'C13_h_remove_scope_refuted']
 THEOREM_OF_DIFF = 'corr_C13: Build.exec = what /repo builds (Props/C13.v laws are about Build.exec)'
 
 SLOTS5 = ['conditions', 'unless', 'before', 'after', 'prepare']
@@ -1351,6 +1358,15 @@ def extra_checks(tier, seed):
     flat._import_transitions()
     n = 400 if tier == 'quick' else 4000
     res = []
+    # the extracted hierarchical builder (Model/HBuild.v) against the real HierarchicalMachine, two scripts per description
+    import c13_h
+    try:
+        okh, dist, badh = c13_h.stream('hb', seed, 600 if tier == 'quick' else 8000)
+    except Exception:  # noqa
+        import traceback
+        okh, dist, badh = False, {}, dict(kind='correspondence', correspondence='corr_C13_hbuild',
+                                          error=traceback.format_exc()[-2000:])
+    res.append(('hsm_builder_model_vs_library', okh, dist, badh))
     for name, fn in (('hsm_nested_dict_vs_joined_names', _nested_pair), ('hsm_embedded_machine_remap', _remap_pair)):
         bad = None
         executed = 0
